@@ -88,6 +88,16 @@ class Signs:
                 return a
             if isinstance(e.op, ast.Mult):
                 if ast.dump(e.left) == ast.dump(e.right): return (NONNEG, None, key)
+                # Welford increment  d * (v - m)  with  d = v - m  taken before and the second factor after  m += d / n : the updated mean lies between
+                # the old mean and v (also in floating point: the update is monotone), so both factors have the same sign
+                for a_, b_ in ((e.left, e.right), (e.right, e.left)):
+                    if isinstance(a_, ast.Name) and isinstance(b_, ast.BinOp) and isinstance(b_.op, ast.Sub) and isinstance(b_.right, ast.Name):
+                        defs_ = [x for x in ast.walk(fn) if isinstance(x, ast.Assign) and len(x.targets) == 1 and isinstance(x.targets[0], ast.Name) and x.targets[0].id == a_.id]
+                        if len(defs_) == 1 and isinstance(defs_[0].value, ast.BinOp) and isinstance(defs_[0].value.op, ast.Sub) and ast.dump(defs_[0].value.left) == ast.dump(b_.left) \
+                                and isinstance(defs_[0].value.right, ast.Name) and defs_[0].value.right.id == b_.right.id:
+                            upd = [x for x in ast.walk(fn) if isinstance(x, ast.AugAssign) and isinstance(x.op, ast.Add) and isinstance(x.target, ast.Name) and x.target.id == b_.right.id
+                                   and isinstance(x.value, ast.BinOp) and isinstance(x.value.op, ast.Div) and isinstance(x.value.left, ast.Name) and x.value.left.id == a_.id]
+                            if len(upd) == 1: return (NONNEG, None, key)
                 a = s.sign(e.left, fn, key, depth, stack); b = s.sign(e.right, fn, key, depth, stack)
                 return a if a[0] != NONNEG else b
             if isinstance(e.op, (ast.Add, ast.Div, ast.FloorDiv)):
